@@ -73,6 +73,13 @@ def make_query(name: str, arity: int, position: str) -> str:
         # every argument is an integer-typed expression: the result must still be a double column
         args = ['""'] if name == "nan" else ['e.Muons("muons").Count()', "2", "3"][:arity]
         return f"ds.Select(lambda e: {name}({', '.join(args)}))"
+    if position == "literal" and name != "nan":
+        # every argument a numeric literal (a halfway value first: C's round / nearbyint / rint differ from Python's there):
+        # the job still calls the C++ function - nothing is computed at translation time with some other library's function
+        args = ["2.5", "0.5", "1.5"][:arity]
+        if name in ("ldexp", "scalbn", "scalbln") and arity == 2:
+            args[1] = "2"
+        return f"ds.Select(lambda e: {name}({', '.join(args)}))"
     call = f"{name}({', '.join(arg_exprs(name, arity))})"
     if position == "nested" and name != "nan":
         # a documented function whose arguments are themselves documented functions, inside another one
@@ -163,7 +170,7 @@ def check(tier: str, seed: int, t0: float, build: core.BuildStatus) -> int:
             audit = [[n, "?", [], "false", []] for n in parse_readme()]
         except Exception:  # noqa: BLE001
             audit = []
-    positions = ["alone", "arith", "intarg", "nested", "first", "pair", "shadow"]
+    positions = ["alone", "arith", "intarg", "literal", "nested", "first", "pair", "shadow"]
     smodel = core.Model() if build.model_ok else None
     distinct = set()
     per_name: Dict[str, Dict[str, Any]] = {}
